@@ -260,8 +260,8 @@ def archive_specs(tier):
         for chain in ("copy", "lzma2", "deflate", "bzip2"):
             S.append({"label": "mini %s folder-crc/raw" % chain, "kind": "mini", "folders": [(chain, M2[:1]), (chain, M1)],
                       "crc": "folder", "header": "raw"})
-        S.append({"label": "mini copy both-crc/lzma-nocrc", "kind": "mini", "folders": [("copy", M2), ("copy", M1)], "crc": "both",
-                  "header": "lzma-nocrc", "pack_crc": True})
+        S.append({"label": "mini copy both-crc/lzma+crc packcrc", "kind": "mini", "folders": [("copy", M2), ("copy", M1)], "crc": "both",
+                  "header": "lzma", "pack_crc": True})
         S.append({"label": "mini copy substream-crc packcrc/raw", "kind": "mini", "folders": [("copy", M2)], "crc": "substream",
                   "header": "raw", "pack_crc": True})
         rng = random.Random(4)
@@ -771,8 +771,11 @@ def explore(ctx):
                 for kind, text in detail:
                     mk = {"kind": kind, "region": region, "header": a["hdrmode"], "writer": spec["kind"]}
                     if kind.startswith("testzip") or kind.startswith("test-"):
-                        mk["crc"] = spec.get("crc", "substream")
-                        mk["extract"] = "raised" if o["extract"][0] != "ok" else "wrong"
+                        ex = o["extract"]
+                        if ex[0] == "ok" and "extract_path" in o and o["extract_path"][0] != "ok":
+                            ex = o["extract_path"]
+                        # what extraction did with the same image: "CrcError(folder)", "CrcError(member)", "<class>:...", "wrong"
+                        mk["extract"] = sig_of(ex[1:]).split(":")[0] if ex[0] != "ok" else "wrong"
                     g = viols.setdefault(json.dumps(mk, sort_keys=True), {"mk": mk, "n": 0, "first": None, "archives": set()})
                     g["n"] += 1
                     g["archives"].add(lab)
